@@ -33,7 +33,7 @@ PROPS = {
             (r"alloc", "alloc"),
             (r".", "malformed"),
         ],
-        "sweep": ["alloc", "malformed"],
+        "sweep": ["alloc", "malformed", "truncated"],
         "explanation": "The same extracted codec functions are verified without any well-formedness assumption on the input bytes: Verus "
                        "generates an obligation for every arithmetic overflow, index, slice, unwrap/expect and callee precondition, and "
                        "every allocation sized by client input must be bounded by the bytes still available (alloc_budget).",
@@ -45,16 +45,18 @@ PROPS = {
     },
     "C01": {
         "technique": "contract-based deductive verification (Verus) of functions extracted mechanically from /repo on every run; crypto::verify_token by a Kani harness on its extracted text",
-        "units": ["U3", "U4", "U2", "U5", "U12"],
+        "units": ["U3", "U4", "U2", "U5", "U12", "U7"],
         "kani": ["U2b"],
         "level": "proof",
-        "witness": [(r"verify_token|create_ciphers|apply_encryption", "enc_response"), (r"listen", "session")],
-        "sweep": ["session", "enc_response", "cookie_matrix"],
+        "witness": [(r"verify_token|create_ciphers|apply_encryption", "enc_response"), (r"get\.request|mojang", "mojang"), (r"listen", "session")],
+        "sweep": ["session", "enc_response", "cookie_matrix", "mojang"],
         "explanation": "Connection::listen is extracted whole and verified against the reference automaton of units/U3/spec.rs: Login Success is accepted "
                        "only when the RSA-decrypted verify token equals the token of this connection's Encryption Request and the identity is the one "
                        "returned by the authentication oracle (asked with the decrypted shared secret and the server public key) or the one inside an "
                        "accepted cookie; filter/select oracles and the AuthCookie are fed that identity; the cipher key equals the shared secret. "
-                       "crypto::verify_token is proved by Kani on its extracted text.",
+                       "crypto::verify_token is proved by Kani on its extracted text. 'Asked ... on that very connection': the built-in Mojang adapter (U7) asks the "
+                       "session service about exactly the claimed name and this connection's server hash (precondition at Client::get, the C12 obligation), so the profile it "
+                       "returns is the service's answer about this connection.",
         "not_covered": ["RSA/PKCS#1 internals (rsa_decrypt is an uninterpreted function)", "verify_token for slices longer than 40 bytes (Kani bound; the comparison is length-first)"],
         "assumptions": ["adapters, RSA decryption, HMAC, JSON (de)serialisation are deterministic uninterpreted functions of their arguments",
                         "packet decoding is a deterministic function of the frame body (decode_of)",
